@@ -186,7 +186,7 @@ Qed.
 Lemma shape_tet_add_cell s hfs chk : tet_shape s -> tet_shape (fst (tet_add_cell s hfs chk)).
 Proof.
   intros K. unfold tet_add_cell. destruct (Nat.eqb_spec (length hfs) 4) as [E|E]; cbn [negb]; [|exact K].
-  destruct (negb (forallb _ hfs)); [exact K|]. destruct (chk && negb (_ =? 4)); [exact K|]. apply kshape_add_cell; assumption.
+  destruct (negb (forallb _ hfs)); [exact K|]. destruct (chk && negb _); [exact K|]. apply kshape_add_cell; assumption.
 Qed.
 
 Lemma fc_tet_add_halfedge s a b : same_fc s (fst (tet_add_halfedge s a b)).
@@ -1270,7 +1270,8 @@ Theorem tet_add_cell_checked_four_vertices s hfs s' c : tet_add_cell s hfs true 
 Proof.
   unfold tet_add_cell. destruct (Nat.eqb_spec (length hfs) 4) as [L|L]; cbn [negb]; [|discriminate].
   destruct (negb (forallb _ hfs)); [discriminate|]. cbn [andb].
-  destruct (Nat.eqb_spec (length (hfs_vertex_set s hfs)) 4) as [V|V]; cbn [negb]; [|discriminate].
+  destruct (Nat.eqb_spec (length (hfs_vertex_set s hfs)) 4) as [V|V]; cbn [negb andb]; [|discriminate].
+  destruct (hfs_triple_count s hfs =? 4); cbn [negb]; [|discriminate].
   unfold add_cell. destruct (true && negb (cell_check s hfs)); [discriminate|].
   destruct (fc_append_cell s hfs) as (a&b&_). pose proof (edges_append_cell s hfs) as e.
   assert (R : snd (append_cell s hfs) = nc s) by (unfold append_cell; cbv zeta; destruct (fbu _); reflexivity).
@@ -1278,6 +1279,61 @@ Proof.
   assert (X : cell_at s' (nc s) = hfs) by (unfold cell_at, nc; rewrite b, app_nth2, Nat.sub_diag by lia; reflexivity).
   repeat split; try assumption. unfold cell_vertex_set. rewrite X. unfold hfs_vertex_set in V. rewrite <- V. do 2 f_equal.
   apply flat_map_ext. intros hf. apply hf_vertices_same; assumption.
+Qed.
+
+(* what the guards of the topology-checked add_cell(halffaces) establish (since the fix "checked tet add_cell must reject four
+   triangles on fewer than four vertex triples" also: no two of the four halffaces have the same vertex SET) *)
+Lemma distinct_vsets_length_le l : length (distinct_vsets l) <= length l.
+Proof. induction l as [|x t IH]; [apply le_n|]. cbn [distinct_vsets length]. destruct (existsb (same_vset x) t); cbn [length]; lia. Qed.
+
+Lemma distinct_vsets_all l : length (distinct_vsets l) = length l ->
+  forall i j, i < j -> j < length l -> same_vset (nth i l []) (nth j l []) = false.
+Proof.
+  induction l as [|x t IH]; intros L i j Hij Hj; [cbn in Hj; lia|]. cbn [distinct_vsets length] in L, Hj.
+  pose proof (distinct_vsets_length_le t) as LE.
+  destruct (existsb (same_vset x) t) eqn:E; [exfalso; lia|]. cbn [length] in L.
+  destruct j as [|j]; [lia|]. destruct i as [|i]; cbn [nth].
+  - destruct (same_vset x (nth j t [])) eqn:S; [|reflexivity]. exfalso.
+    assert (X : existsb (same_vset x) t = true) by (apply existsb_exists; exists (nth j t []); split; [apply nth_In; lia | exact S]). congruence.
+  - apply IH; lia.
+Qed.
+
+Lemma same_vset_spec a b : same_vset a b = true <-> (incl a b /\ incl b a).
+Proof.
+  unfold same_vset, incl. rewrite andb_true_iff, !forallb_forall. split; intros [H1 H2]; split; intros x Hx; apply memb_In; auto.
+Qed.
+
+Lemma same_vset_refl a : same_vset a a = true.
+Proof. apply same_vset_spec. split; apply incl_refl. Qed.
+
+Theorem tet_add_cell_checked_guards s hfs s' c : tet_add_cell s hfs true = (s', Some c) ->
+  length hfs = 4 /\ (forall hf, In hf hfs -> length (face_at s (hf / 2)) = 3) /\ length (hfs_vertex_set s hfs) = 4 /\ NoDup hfs /\
+  (forall hf hf', In hf hfs -> In hf' hfs -> hf <> hf' -> ~ (incl (hf_vertices s hf) (hf_vertices s hf') /\ incl (hf_vertices s hf') (hf_vertices s hf))) /\
+  add_cell s hfs true = (s', Some c).
+Proof.
+  unfold tet_add_cell. destruct (Nat.eqb_spec (length hfs) 4) as [L|L]; cbn [negb]; [|discriminate].
+  destruct (forallb (fun hf => length (face_at s (hf / 2)) =? 3) hfs) eqn:F3; cbn [negb]; [|discriminate]. cbn [andb].
+  destruct (Nat.eqb_spec (length (hfs_vertex_set s hfs)) 4) as [V|V]; cbn [negb andb]; [|discriminate].
+  destruct (Nat.eqb_spec (hfs_triple_count s hfs) 4) as [T|T]; cbn [negb]; [|discriminate]. intros A.
+  rewrite forallb_forall in F3.
+  assert (ALL : forall i j, i < j -> j < 4 -> same_vset (hf_vertices s (nth i hfs 0)) (hf_vertices s (nth j hfs 0)) = false).
+  { intros i j Hij Hj. unfold hfs_triple_count in T.
+    pose proof (distinct_vsets_all (map (hf_vertices s) hfs) ltac:(rewrite map_length; lia) i j Hij ltac:(rewrite map_length; lia)) as X.
+    rewrite <- (map_nth (hf_vertices s) hfs 0 i), <- (map_nth (hf_vertices s) hfs 0 j).
+    rewrite (nth_indep _ [] (hf_vertices s 0)) in X by (rewrite map_length; lia).
+    rewrite (nth_indep (map (hf_vertices s) hfs) [] (hf_vertices s 0)) in X by (rewrite map_length; lia). exact X. }
+  assert (DIFF : forall i j, i < 4 -> j < 4 -> i <> j -> same_vset (hf_vertices s (nth i hfs 0)) (hf_vertices s (nth j hfs 0)) = false).
+  { intros i j Hi Hj N. destruct (Nat.lt_ge_cases i j) as [Lt|Ge]; [apply ALL; assumption|].
+    assert (Lt : j < i) by lia. pose proof (ALL j i Lt Hi) as X. destruct (same_vset (hf_vertices s (nth i hfs 0)) (hf_vertices s (nth j hfs 0))) eqn:S; [|reflexivity].
+    apply same_vset_spec in S. destruct S as [S1 S2]. assert (Y : same_vset (hf_vertices s (nth j hfs 0)) (hf_vertices s (nth i hfs 0)) = true) by (apply same_vset_spec; auto).
+    congruence. }
+  split; [exact L|]. split; [intros hf Hh; apply Nat.eqb_eq; exact (F3 hf Hh)|]. split; [exact V|]. split; [|split; [|exact A]].
+  - apply (proj2 (NoDup_nth hfs 0)). intros i j Hi Hj E. destruct (Nat.eq_dec i j) as [|N]; [assumption|]. exfalso.
+    pose proof (DIFF i j ltac:(lia) ltac:(lia) N) as X. rewrite E, same_vset_refl in X. discriminate.
+  - intros hf hf' Hh Hh' N [I1 I2]. destruct (In_nth hfs hf 0 Hh) as (i & Hi & Ei). destruct (In_nth hfs hf' 0 Hh') as (j & Hj & Ej).
+    assert (Nij : i <> j) by (intros ->; congruence).
+    pose proof (DIFF i j ltac:(lia) ltac:(lia) Nij) as X. rewrite Ei, Ej in X.
+    assert (Y : same_vset (hf_vertices s hf) (hf_vertices s hf') = true) by (apply same_vset_spec; auto). congruence.
 Qed.
 
 (* the former counterexample (two "pillows": four triangles, six vertices) is now rejected, the mesh unchanged *)
